@@ -61,6 +61,7 @@ class STimeDelta:
     us: SInt
 
 
+UNKNOWN_DIRECTIVES: list[str] = []
 FULL_FIELDS = frozenset({"date", "H", "M", "S", "f"})
 CANONICAL_FORMAT = "%Y-%m-%dT%H:%M:%S.%fZ"
 
@@ -99,9 +100,9 @@ def parse_strftime(fmt: str) -> tuple[frozenset, bool, bool]:
     """-> (fields shown, trailing Z, layout is the ISO layout fromisoformat accepts)."""
     dirs = re.findall(r"%(.)", fmt)
     known = {"Y": "Y", "m": "m", "d": "d", "H": "H", "M": "M", "S": "S", "f": "f"}
-    for d in dirs:
-        if d not in known:
-            raise NotEncodable(f"strftime directive %{d} is not modelled")
+    UNKNOWN_DIRECTIVES[:] = [d for d in dirs if d not in known]
+    # a directive that is not modelled contributes an uninterpreted rendering: the field it stands for is treated as
+    # not shown, which makes the "string determines the instant" query satisfiable; the check then looks for a real witness
     fields = set()
     if {"Y", "m", "d"} <= set(dirs):
         fields.add("date")
@@ -146,6 +147,13 @@ class Interp:
                 for a in node.names:
                     if a.name == "datetime":
                         self.globals[a.asname or a.name] = Marker("datetime")
+            elif (isinstance(node, ast.Assign) and len(node.targets) == 1 and isinstance(node.targets[0], ast.Name)
+                  and isinstance(node.value, ast.Constant) and isinstance(node.value.value, (int, float, str))
+                  and not isinstance(node.value.value, bool)):
+                self.globals[node.targets[0].id] = node.value.value   # module-level constant
+            elif (isinstance(node, ast.AnnAssign) and isinstance(node.target, ast.Name) and isinstance(node.value, ast.Constant)
+                  and isinstance(node.value.value, (int, float, str)) and not isinstance(node.value.value, bool)):
+                self.globals[node.target.id] = node.value.value
 
     # ------------------------------------------------------------------
     def call(self, fname: str, args: list[Any]) -> Any:
